@@ -39,8 +39,8 @@ def classify(ctx, ev):
         return "status"
     if isinstance(ev, Mut) and ev.attr == "cost_list" and ev.cls == PROJECT and ev.op == "append":
         return "project-cost"
-    if not isinstance(ev, Call) or not ev.callees:
-        return None
+    if not isinstance(ev, Call) or not ev.callees or ev.inlined:
+        return None   # (an inlined wrapper is not a phase: its body follows in the trace)
     q = ev.callees[0]
     if q == f"{WORKFLOW}.check_state":
         a = ev.args.get(1, ev.args.get("state"))
@@ -147,7 +147,10 @@ def loop_paths(ctx, heap=None, collections=None, havoc_on_call=True, bind=None, 
 
 def working_of(path):
     """Value of the local `working` on this path: True / False / None."""
-    v = path["state"].env.get("working")
+    st = path["state"]
+    v = st.env.get("working")
     if isinstance(v, Const):
         return v.v
+    if v is not None and id(v) in st.vknown and st.vknown[id(v)][0] is v:
+        return st.vknown[id(v)][1]   # decided where the value was first tested (possibly inside a helper it was passed to)
     return None
